@@ -108,6 +108,8 @@ def buildThread (tid : Nat) (ops : List (List String)) : Option (ThreadProg × B
         | ["init"] => none
         | ["free"] => none
         | ["fini"] => none
+        | "marktype" :: _ => some (SOp.buf .metaOp)      -- metadata only
+        | "marklabel" :: _ => some (SOp.buf .metaOp)
         | _ => (Drivers.Rt.parseOp ws).map SOp.buf
     let cap := Ovni.Generated.maxEvBuf
     let s0 : St Drivers.Rt.Pat := { now := 1000, tick := 1 }
